@@ -125,6 +125,10 @@ func DefaultKey(c Case, n, i Obs) string {
 	return k
 }
 
+// Rekey, when set, may replace the key of a failing case knowing the names of all failing
+// cases of the run (attribution to a minimal failing sub-case, DESIGN §1.5).
+var Rekey func(name, key string, failing map[string]bool) string
+
 // RunAll compares every registered case (accepted by filter) and records failures in r.
 func RunAll(r *report.Run, filter func(name string) bool, key KeyFn, opt Options, po par.Opts) {
 	var sel []int
@@ -142,7 +146,9 @@ func RunAll(r *report.Run, filter func(name string) bool, key KeyFn, opt Options
 	}
 	res := par.Map(len(sel), func(k int) *out {
 		c := Cases[sel[k]]
+		par.Note("native")
 		n := RunNative(c)
+		par.Note("interp")
 		it := RunInterp(c.Src, opt)
 		par.Count("programs", 1)
 		par.Count("show_steps", int64(n.Steps))
@@ -157,11 +163,26 @@ func RunAll(r *report.Run, filter func(name string) bool, key KeyFn, opt Options
 		}
 		return &out{Key: key(c, n, it), What: c.Name + ": " + Diff(n, it), FC: FailCase{c.Name, c.Src, n, it}}
 	}, po)
+	failing := map[string]bool{}
 	for _, o := range res.Outs {
-		r.Fail(report.Failure{Key: o.Key, What: o.What, Case: o.FC})
+		failing[o.FC.Name] = true
+	}
+	for _, a := range res.Abnormal {
+		failing[Cases[sel[a.Idx]].Name] = true
+	}
+	for _, o := range res.Outs {
+		k := o.Key
+		if Rekey != nil {
+			k = Rekey(o.FC.Name, k, failing)
+		}
+		r.Fail(report.Failure{Key: k, What: o.What, Case: o.FC})
 	}
 	for _, a := range res.Abnormal {
 		c := Cases[sel[a.Idx]]
+		if a.Note != "interp" {
+			r.HarnessError("%s: %s outside the interpreter (phase %q): generated program does not terminate natively? %s", c.Name, a.Kind, a.Note, lastLines(a.Log, 3))
+			continue
+		}
 		r.Fail(report.Failure{Key: c.Name + "|" + a.Kind, What: c.Name + ": interpreter " + a.Kind + " (worker lost) " + lastLines(a.Log, 3), Case: FailCase{Name: c.Name, Src: c.Src, Interp: Obs{End: a.Kind}}})
 	}
 	progs := res.Counts["programs"]
